@@ -4,7 +4,12 @@
    groups), C02 (every pre-terminal is emitted), C04 (expansion = denote). *)
 From Coq Require Import List Arith Bool NArith Sorting.Permutation.
 From Coq Require Import QArith.
-From Pcfg Require Import ProbAlg Expand ExpandProofs EndToEnd Next NextSpec NextProofs QProb QSum.
+From Coq Require Import Floats.
+From Coq Require String.
+Import String.StringSyntax.
+From Pcfg Require Import ProbAlg F64 Expand ExpandProofs EndToEnd Next NextSpec NextProofs QProb QSum.
+From Pcfg Require Str Detect Counters SegCorr PipelineTrain.
+From Pcfg Require Import Pipeline PipelineSpec PipelineCorr PipelineDisk PipelineProofs PipelineF64 PipelineF64Bound PipelineQ PipelineCount PipelineCountQ PipelineInst.
 Import ListNotations.
 
 (* storing a word lower-cased with its U/L mask loses nothing on the property's
@@ -53,6 +58,183 @@ Theorem C03_sum_Q :
              (emitted (run pop rs (total rs) (start rs)))) == s)%Q.
 Proof. exact QSum_emitted. Qed.
 
+(* ================================================================== *)
+(* ONE pipeline model (theories/Pipeline.v), ONE theorem               *)
+(* ================================================================== *)
+
+(* The pipeline: train (check_valid, the two trainer passes with the multi-word
+   detector and the detectors, the parser's counters, the Markov pseudo-count)
+   -> save (probability lists, file names, config lists) -> the disk stage ->
+   load (the guesser's terminal loader with grouping of equal probabilities,
+   the base-structure loader with skip_brute) -> session (the next algorithm,
+   ANY queue meeting the heap contract pop_ok_okb) -> expansion of every
+   pre-terminal.  c_env is the environment of this run: constants regenerated
+   from the source, Unicode facts of the interpreter.
+
+   C03, the code's own arithmetic (binary64) and file format (the text the
+   trainer writes, read back by the guesser's reader).
+   If training on a list [raw] completes, then for every line [pw] of the list
+   that check_valid accepts, whose structure has no e-mail / website segment
+   (supported_pw) and whose letters have a one-to-one case mapping
+   (case_ok_pw), the guesser loads the saved ruleset (skip_brute) and every
+   complete session prints pw.
+   Assumed of the Python runtime (oracles, io_ok): float(repr(p)) == p with
+   repr over 0-9.e+-infa, the ruleset encoding encodes ASCII, the passwords
+   and the lower case of what it encodes.  f64_arith_ok is a COMPUTABLE check
+   of the float arithmetic on the run's own counters (the hypotheses of
+   C06_F64_sorted_unit, P(M) < 1, rescaled base probabilities finite); the
+   correspondence evaluates it on every case.  It cannot be dropped: with a
+   tiny coverage P(M) rounds to 1.0 and the guesser divides by zero. *)
+Theorem C03_reproduced :
+  forall (io : fileio) (o : options F64) (raw : list Str.str) (tr : trained F64) (pw : Str.str),
+  io_ok io -> (forall c, f_encb io c = true -> f_encb io (Detect.lower1 SegCorr.c_lower c) = true) ->
+  train c_env o raw = Some tr -> In pw raw -> accepted_pw c_env pw = true -> supported_pw c_env o raw pw = true ->
+  case_ok_pw c_env pw -> Forall (fun p => forallb (f_encb io) p = true) raw -> f64_arith_ok c_env tr = true ->
+  exists L, pipeline_F64 c_env io o raw = Some L /\
+    forall pop, pop_ok_okb pop ->
+      (exists it, In it (session pop L) /\ exists out k, guesses_of RF c_env L it = Some (out, k) /\ In pw out) /\
+      In pw (printed RF c_env pop L).
+Proof.
+  intros io o raw tr pw Hio Hl. exact (C03_reproduced_F64 c_env c_env_ok io (c_io_env_ok io Hio Hl) o raw tr pw).
+Qed.
+
+(* binary64 WITHOUT the computable check: trained with coverage 1.0 (no Markov
+   mass) on a list of fewer than 2^53 characters in total, every count and
+   every partial sum is an integer below 2^53, hence exact in binary64, and
+   f64_arith_ok holds (PipelineF64Bound.f64_arith_ok_cov1) *)
+Theorem C03_reproduced_coverage1 :
+  forall (io : fileio) (o : options F64) (raw : list Str.str) (tr : trained F64) (pw : Str.str),
+  io_ok io -> (forall c, f_encb io c = true -> f_encb io (Detect.lower1 SegCorr.c_lower c) = true) ->
+  train c_env o raw = Some tr -> In pw raw -> accepted_pw c_env pw = true -> supported_pw c_env o raw pw = true ->
+  case_ok_pw c_env pw -> Forall (fun p => forallb (f_encb io) p = true) raw ->
+  (o_cov o : PrimFloat.float) = 1%float -> chars_bound raw ->
+  exists L, pipeline_F64 c_env io o raw = Some L /\
+    forall pop, pop_ok_okb pop ->
+      (exists it, In it (session pop L) /\ exists out k, guesses_of RF c_env L it = Some (out, k) /\ In pw out) /\
+      In pw (printed RF c_env pop L).
+Proof.
+  intros io o raw tr pw Hio Hl. exact (C03_reproduced_F64_cov1 c_env c_env_ok io (c_io_env_ok io Hio Hl) o raw tr pw).
+Qed.
+
+(* the same pipeline over exact rationals (ideal disk stage): no arithmetic
+   hypothesis at all, any coverage 0 < c <= 1 *)
+Theorem C03_reproduced_exact :
+  forall (o : options QProb) raw tr pw,
+  train c_env o raw = Some tr -> In pw raw -> accepted_pw c_env pw = true -> supported_pw c_env o raw pw = true ->
+  case_ok_pw c_env pw -> cov_ok o ->
+  exists L, pipeline_Q c_env o raw = Some L /\
+    forall pop, pop_ok_okb pop ->
+      (exists it, In it (session pop L) /\ exists out k, guesses_of RQ c_env L it = Some (out, k) /\ In pw out) /\
+      In pw (printed RQ c_env pop L).
+Proof. exact (C03_reproduced_Q c_env c_env_ok). Qed.
+
+(* "the probabilities of all emitted guesses sum to 1": same pipeline, exact
+   rationals; each pre-terminal counts for the number of its guesses (the
+   product of the sizes of its groups, C04_each_once) *)
+Theorem C03_sum_one_Q :
+  forall (o : options QProb) raw tr pw,
+  train c_env o raw = Some tr -> In pw raw -> accepted_pw c_env pw = true -> supported_pw c_env o raw pw = true ->
+  cov_ok o ->
+  exists L, pipeline_Q c_env o raw = Some L /\
+    forall pop, pop_ok_okb pop ->
+      (Qsum (map (fun it : Qitem => iprob it * count_it (sizes_of (l_grammar L)) it)
+                 (emitted (run pop (l_rs L) (NextSpec.total (l_rs L)) (start (l_rs L))))) == 1)%Q.
+Proof. exact (PipelineQ.C03_sum_one_Q c_env c_env_ok). Qed.
+
+(* ... where that number IS the number of lines the guesser prints: every
+   pre-terminal of the session expands without error, and the probabilities of
+   all guesses (each guess carries the probability of its pre-terminal) sum to 1 *)
+Theorem C03_sum_one_guesses :
+  forall (o : options QProb) raw tr pw,
+  train c_env o raw = Some tr -> In pw raw -> accepted_pw c_env pw = true -> supported_pw c_env o raw pw = true ->
+  cov_ok o ->
+  exists L, pipeline_Q c_env o raw = Some L /\
+    forall pop, pop_ok_okb pop ->
+      (forall it, In it (session pop L) -> exists out, guesses_of RQ c_env L it = Some (out, length out)) /\
+      (Qsum (map (fun it : Qitem => iprob it * Qn (nguesses RQ c_env L it))
+                 (emitted (run pop (l_rs L) (NextSpec.total (l_rs L)) (start (l_rs L))))) == 1)%Q.
+Proof. exact (C03_sum_one_guesses_Q c_env c_env_ok). Qed.
+
+(* the generic statement both are instances of: any probability algebra with
+   the trainer's operations, ideal disk; the two arithmetic facts it needs are
+   explicit (no division by zero in the loader, the loaded ruleset is wf) *)
+Theorem C03_reproduced_generic :
+  forall (A : palg) (R : parith A) (E : env), env_ok E ->
+  forall (o : options A) raw tr pw,
+  train E o raw = Some tr -> In pw raw -> accepted_pw E pw = true -> supported_pw E o raw pw = true ->
+  case_ok_pw E pw -> a_eqb R (o_cov o) (a_zero R) = false -> no_zero_div R tr ->
+  exists L, load R E (disk_ideal R) (@disk_base_ideal A) (save R tr) = Some L /\
+    (wf (l_rs L) -> forall pop, pop_ok_okb pop ->
+       (exists it, In it (session pop L) /\ exists out k, guesses_of R E L it = Some (out, k) /\ In pw out) /\
+       In pw (printed R E pop L)).
+Proof. exact (@reproduced_emitted). Qed.
+
+(* training never stops on an exception of parse(): it completes whenever one line is accepted *)
+Theorem C03_train_completes :
+  forall (A : palg) (o : options A) raw, (exists pw, In pw raw /\ accepted_pw c_env pw = true) ->
+  exists tr, train c_env o raw = Some tr.
+Proof.
+  intros A o raw (pw & Hin & Hacc).
+  apply (PipelineTrain.train_total c_env (ok_aligned _ c_env_ok) (ok_good _ c_env_ok) (ok_min_len _ c_env_ok) (ok_year _ c_env_ok)
+           (ok_tlds _ c_env_ok) (ok_min_run _ c_env_ok) o raw (ok_rej_empty _ c_env_ok)).
+  intros Hnil. assert (H : In pw (PipelineTrain.train_pws c_env raw)) by (apply filter_In; now split). rewrite Hnil in H. exact H.
+Qed.
+
+(* ---- the hypotheses are satisfiable: a concrete list run through the model by vm_compute *)
+Open Scope string_scope.
+Definition ex_s (x : String.string) : Str.str := Counters.str_of_string x.
+Definition ex_raw : list Str.str :=
+  [ex_s "PaSSword#1"; ex_s "love2019"; ex_s "love2019"; ex_s "bob@gmail.com"; ex_s "1qaz!"; ex_s ""].
+Definition ex_oq : options QProb := {| o_cov := (3 # 5)%Q : P QProb; o_sensitive := false; o_multiword := [] |}.
+
+Example C03_example_exact :
+  (exists tr, train c_env ex_oq ex_raw = Some tr) /\
+  In (ex_s "PaSSword#1") ex_raw /\ accepted_pw c_env (ex_s "PaSSword#1") = true /\
+  supported_pw c_env ex_oq ex_raw (ex_s "PaSSword#1") = true /\ case_ok_pw c_env (ex_s "PaSSword#1") /\ cov_ok ex_oq /\
+  supported_pw c_env ex_oq ex_raw (ex_s "bob@gmail.com") = false /\ accepted_pw c_env (ex_s "") = false /\
+  option_map (fun L => printed RQ c_env pop_first_max L) (pipeline_Q c_env ex_oq ex_raw)
+  = Some [ex_s "love2019"; ex_s "PaSSword#1"; ex_s "1qaz!"].
+Proof.
+  split; [destruct (train c_env ex_oq ex_raw) as [tr|] eqn:E; [now exists tr|vm_compute in E; discriminate E]|].
+  split; [simpl; tauto|]. split; [vm_compute; reflexivity|]. split; [vm_compute; reflexivity|].
+  split.
+  { unfold case_ok_pw.
+    repeat (constructor; [vm_compute; first [intros _; reflexivity | intros H; discriminate H]|]). constructor. }
+  split; [split; [reflexivity|discriminate]|]. split; [vm_compute; reflexivity|]. split; [vm_compute; reflexivity|].
+  vm_compute. reflexivity.
+Qed.
+
+(* binary64 with the real file format: repr / float() as the finite table of
+   the three probabilities that occur ('Pass1' twice, 'word' once, coverage 1) *)
+Definition ex_io : fileio :=
+  io_of [(0x1.5555555555555p-1%float, ex_s "0.6666666666666666"); (0x1.5555555555555p-2%float, ex_s "0.3333333333333333");
+         (1%float, ex_s "1.0")]
+        [(ex_s "0.6666666666666666", Some 0x1.5555555555555p-1%float); (ex_s "0.3333333333333333", Some 0x1.5555555555555p-2%float);
+         (ex_s "1.0", Some 1%float)] [] false.
+Definition ex_rawf : list Str.str := [ex_s "Pass1"; ex_s "Pass1"; ex_s "word"].
+Definition ex_of : options F64 := {| o_cov := 1%float : P F64; o_sensitive := false; o_multiword := [] |}.
+
+Example C03_example_binary64 :
+  match train c_env ex_of ex_rawf with Some tr => f64_arith_ok c_env tr | None => false end = true /\
+  supported_pw c_env ex_of ex_rawf (ex_s "Pass1") = true /\ case_ok_pw c_env (ex_s "Pass1") /\
+  option_map (fun L => printed RF c_env pop_first_max L) (pipeline_F64 c_env ex_io ex_of ex_rawf)
+  = Some [ex_s "Pass1"; ex_s "Word1"; ex_s "pass1"; ex_s "Pass"; ex_s "Word"; ex_s "pass"; ex_s "word1"; ex_s "word"].
+Proof.
+  split; [vm_compute; reflexivity|]. split; [vm_compute; reflexivity|]. split.
+  { unfold case_ok_pw.
+    repeat (constructor; [vm_compute; first [intros _; reflexivity | intros H; discriminate H]|]). constructor. }
+  vm_compute. reflexivity.
+Qed.
+
+Close Scope string_scope.
+
+Print Assumptions C03_reproduced.
+Print Assumptions C03_reproduced_coverage1.
+Print Assumptions C03_reproduced_exact.
+Print Assumptions C03_sum_one_Q.
+Print Assumptions C03_sum_one_guesses.
+Print Assumptions C03_reproduced_generic.
+Print Assumptions C03_train_completes.
 Print Assumptions C03_mask_roundtrip.
 Print Assumptions C03_sum_Q.
 Print Assumptions C03_password_in_expansion.
